@@ -509,10 +509,27 @@ package entities
 //@   loop 1 invariant none: forall j in [0, $i): ie(b.orderedElementList[j]).Name != name
 //@   loop 1 decreases len(b.orderedElementList) - $i
 
-//@ // GetElementMap builds a fresh name -> value map from the record's elements; it reads the record only
+//@ // wfElemA: well-typed element as the aggregation process sees it: the dynamic type supports the getter/setter of its data type.
+//@ // Weaker than wfElem: the aggregation code itself stores dateTimeSeconds elements (flowEndSecondsFrom*Node) in
+//@ // Unsigned32InfoElement objects (NewUnsigned32InfoElement on a dateTimeSeconds information element), which wfElem excludes.
+//@ pure wfElemA(e InfoElementWithValue) bool = !isnil(e) && ie(e) != nil
+//@     && (dt(e) == OctetArray ==> is(e, *OctetArrayInfoElement)) && (dt(e) == Unsigned8 ==> is(e, *Unsigned8InfoElement))
+//@     && (dt(e) == Unsigned16 ==> is(e, *Unsigned16InfoElement)) && (dt(e) == Unsigned32 ==> is(e, *Unsigned32InfoElement))
+//@     && (dt(e) == Unsigned64 ==> is(e, *Unsigned64InfoElement)) && (dt(e) == Signed8 ==> is(e, *Signed8InfoElement))
+//@     && (dt(e) == Signed16 ==> is(e, *Signed16InfoElement)) && (dt(e) == Signed32 ==> is(e, *Signed32InfoElement))
+//@     && (dt(e) == Signed64 ==> is(e, *Signed64InfoElement)) && (dt(e) == Float32 ==> is(e, *Float32InfoElement))
+//@     && (dt(e) == Float64 ==> is(e, *Float64InfoElement)) && (dt(e) == Boolean ==> is(e, *BooleanInfoElement))
+//@     && (dt(e) == MacAddress ==> is(e, *MacAddressInfoElement)) && (dt(e) == String ==> is(e, *StringInfoElement))
+//@     && (dt(e) == DateTimeSeconds ==> is(e, *DateTimeSecondsInfoElement) || is(e, *Unsigned32InfoElement))
+//@     && (dt(e) == DateTimeMilliseconds ==> is(e, *DateTimeMillisecondsInfoElement) || is(e, *Unsigned64InfoElement))
+//@     && ((dt(e) == Ipv4Address || dt(e) == Ipv6Address) ==> is(e, *IPAddressInfoElement))
+
+//@ // GetElementMap builds a fresh name -> value map from the record's elements; it reads the record only and cannot panic on
+//@ // elements whose dynamic type supports the getter of their data type (wfElemA)
 //@ func (b *baseRecord) GetElementMap() (r)
-//@   noeffect
-//@   trusted
+//@   requires recv: b != nil && (forall j in [0, len(b.orderedElementList)): wfElemA(b.orderedElementList[j]))
+//@   ensures  r:    r != nil && fresh(r)
+//@   loop 1 invariant cnt: 0 <= $i && $i <= len(orderedElements) && orderedElements == b.orderedElementList && elements != nil && fresh(elements)
 
 // ---------------------------------------------------------------------------
 // End-to-end fidelity (C01): the decoder's postconditions applied to the bytes the encoder's
